@@ -960,7 +960,9 @@ def verify_function(src, registry: Registry, schema_factory, models, ct: Contrac
                         matched = True
                         path.oblige(f"{ip.oid_prefix} / {nm}", when if when is not None else True, kind="post", clause=nm)
                         break
-                if not matched and not c.allow_any_raise:
+                # "may raise anything" covers what an external call may throw (an exception object of unknown class, created by
+                # the external model), not exceptions the code under proof raises by itself (KeyError, AttributeError, ...)
+                if not matched and not (c.allow_any_raise and val.cls == "?"):
                     path.oblige(f"{ip.oid_prefix} / no-raise", False, kind="no-raise", exc=val.cls,
                                 detail=str(val.args)[:80])
             for hook in c.on_exit:
